@@ -28,7 +28,10 @@ STRENGTHENED = {
     'C08-m12', 'C09-m13', 'C11-m13', 'C12-m13', 'C15-m11', 'C17-m13', 'C18-m12',
     # wave 5 (C14-m15 and C18-m14: strengthened from the author's report before the first evaluation)
     'C01-m15', 'C02-m16', 'C04-m14', 'C04-m16', 'C05-m16', 'C07-m16', 'C08-m15', 'C14-m14', 'C14-m15', 'C16-m15',
-    'C18-m14'}
+    'C18-m14',
+    # wave 6 (C16-m18 and C11-m19: strengthened from the authors' reports before the first evaluation)
+    'C01-m18', 'C02-m18', 'C02-m19', 'C03-m18', 'C04-m18', 'C04-m19', 'C05-m19', 'C08-m18', 'C09-m18', 'C11-m17', 'C11-m18',
+    'C11-m19', 'C12-m17', 'C12-m18', 'C12-m19', 'C13-m18', 'C14-m18', 'C16-m18', 'C18-m18', 'C19-m19', 'C20-m18'}
 
 
 def title(notes):
